@@ -274,7 +274,16 @@ def rule_windowsides(ctx):
         if x.op == "upd" and x.a[1] == "method:extend":
             v = x.a[3].a[0]
             good_r = v.op == "sub" and v.a[0].op == "call" and call_name(v.a[0]) == "np.argsort" and v.a[1].op == "slice" and v.a[1].a[0].op == "iter" and v.a[1].a[0].a[0] is seen["lo"].term and v.a[1].a[1].op == "iter" and v.a[1].a[1].a[0] is seen["hi"].term
-    yield ob("C05.INDEXSPACE", f, "util._fast_hit_windows:ref-indices", good_r, "emitted reference indices are argsort(ref)[start:end] (original index space)")
+    why_r = "emitted reference indices are argsort(ref)[start:end] (original index space)"
+    if not good_r:
+        # vectorised enumeration: all positions lo[j] .. hi[j]-1 are computed at once and mapped through the permutation
+        for x in tm.walk(hr):
+            if x.op == "sub" and x.a[0].op == "call" and call_name(x.a[0]) == "np.argsort" and x.a[0].a[1] and x.a[0].a[1][0].op == "param" and x.a[0].a[1][0].a[0] == "ref":
+                inside = set(z.id for z in tm.walk(x.a[1]))
+                if seen["lo"].term.id in inside and seen["hi"].term.id in inside:
+                    good_r = True
+                    why_r = "emitted reference indices are argsort(ref)[<positions computed from both window bounds>] (original index space; the position arithmetic itself is not decided)"
+    yield ob("C05.INDEXSPACE", f, "util._fast_hit_windows:ref-indices", good_r, why_r)
     good_e = False
     for x in tm.walk(he):
         if x.op == "upd" and x.a[1] == "method:extend":
@@ -283,13 +292,28 @@ def rule_windowsides(ctx):
                 l = [z for z in (v.a[1], v.a[2]) if z.op == "list"]
                 n = [z for z in (v.a[1], v.a[2]) if z.op != "list"]
                 good_e = bool(l) and len(l[0].a) == 1 and l[0].a[0].op == "idx" and bool(n) and n[0].op == "bin" and n[0].a[0] == "-"
-    yield ob("C05.INDEXSPACE", f, "util._fast_hit_windows:est-indices", good_e, "the estimate index j is emitted once per reference in its window ([j] * (end - start))")
+    why_e = "the estimate index j is emitted once per reference in its window ([j] * (end - start))"
+    if not good_e:
+        # np.repeat(arange(n_est), hi - lo) (clipped at 0): index j repeated once per reference in its window
+        for x in tm.walk(he):
+            if x.op == "call" and call_name(x) == "np.repeat" and len(x.a[1]) == 2:
+                idxs, cnt = x.a[1]
+                rng = idxs.op == "call" and call_name(idxs) == "np.arange"
+                cz = set(z.id for z in tm.walk(cnt))
+                diff = any(z.op == "bin" and z.a[0] == "-" and z.a[1] is seen["hi"].term and z.a[2] is seen["lo"].term for z in tm.walk(cnt))
+                if rng and diff:
+                    good_e = True
+                    why_e = "the estimate index j is emitted hi[j] - lo[j] times (np.repeat(arange, hi - lo))"
+    yield ob("C05.INDEXSPACE", f, "util._fast_hit_windows:est-indices", good_e, why_e)
     lid = None
     for x in tm.walk(hr):
         if x.op == "loop":
             lid = x.a[0]
     it = s.loops.get(lid, (None, None))[1]
     good_it = it is not None and it.op == "call" and call_name(it) == "builtins.enumerate" and it.a[1][0].op == "call" and call_name(it.a[1][0]) == "builtins.zip" and list(it.a[1][0].a[1]) == [seen["lo"].term, seen["hi"].term]
+    if lid is None and not s.loops and good_r and good_e:
+        # no loop at all: the vectorised enumeration pairs both index arrays position by position
+        good_it = True
     yield ob("C05.INDEXSPACE", f, "util._fast_hit_windows:iteration", good_it, "windows are enumerated in estimate order over zip(left_idx, right_idx)")
 
 
